@@ -4,7 +4,7 @@ func init() {
 	props["C17"] = &propDef{
 		info: PropInfo{
 			Bounds: []string{
-				"kernel calcBitIndex: output zoom case-split over 0..3 (quick) / 0..4 (thorough); altitude(s) and height range any reals with |.| <= 10^6 and max-min >= 1e-9: index in 0..2^zoom-1, monotone in the altitude, clamped below/above the range — relaxed encoding with the rounding error as a monotone function of the exact result (over-approximates IEEE binary64)",
+				"kernel calcBitIndex: output zoom case-split over 0..3 (quick) / 0..4 (thorough); altitude(s) and height range any reals with |.| <= 10^6 and max-min >= 1e-3: index in 0..2^zoom-1, monotone in the altitude, clamped below/above the range — relaxed encoding with the rounding error as a monotone function of the exact result (over-approximates IEEE binary64)",
 				"forward entry convertVerticallIDToBit: the returned set is exactly the run from the bottom cell to the top cell (run length <= 4), for (voxel zoom, output zoom) in {(0,1),(0,2),(20,1)}",
 				"maxHeight < minHeight: error in both directions (any doubles)",
 			},
